@@ -582,7 +582,7 @@ pub fn h_c19_embedded() {
     let n_math = xot.add_name_ns("math", mml);
     let n_mi = xot.add_name_ns("mi", mml);
     let n_p = xot.add_name_ns("p", xh);
-    let shape = sym::choose("shape", 4);
+    let shape = sym::choose("shape", 6);
     let e_svg = xot.new_element(n_svg);
     xot.append(div, e_svg).unwrap();
     let circle = xot.new_element(n_circle);
@@ -615,13 +615,46 @@ pub fn h_c19_embedded() {
             xot.append_text(math, &t).unwrap();
             cdata.push(n_math);
         }
-        _ => {
+        3 => {
             // text in SVG, followed by an XHTML element, then MathML
             xot.append_text(e_svg, &t).unwrap();
             let p = xot.new_element(n_p);
             xot.append(div, p).unwrap();
             let math = xot.new_element(n_math);
             xot.append(div, math).unwrap();
+        }
+        4 => {
+            // foreign XML: prefixed element with text, an HTML-named child in the foreign namespace
+            let f = xot.add_namespace("urn:f");
+            let pf = xot.add_prefix("f");
+            xot.set_namespace(div, pf, f);
+            let n_x = xot.add_name_ns("x", f);
+            let n_br = xot.add_name_ns("br", f);
+            let x = xot.new_element(n_x);
+            xot.append(div, x).unwrap();
+            xot.append_text(x, &t).unwrap();
+            let br = xot.new_element(n_br);
+            xot.append(x, br).unwrap();
+            let s2 = xot.new_element(n_svg);
+            xot.append(x, s2).unwrap();
+            cdata.push(n_x);
+        }
+        _ => {
+            // foreign XML as default namespace, HTML and SVG below it
+            let f = xot.add_namespace("urn:f");
+            let empty = xot.empty_prefix();
+            let n_x = xot.add_name_ns("script", f);
+            let x = xot.new_element(n_x);
+            xot.set_namespace(x, empty, f);
+            xot.append(div, x).unwrap();
+            xot.append_text(x, &t).unwrap();
+            let p = xot.new_element(n_p);
+            xot.append(x, p).unwrap();
+            let s2 = xot.new_element(n_svg);
+            xot.append(p, s2).unwrap();
+            let na = xot.add_name("a");
+            let a = xot.new_element(na);
+            xot.append(x, a).unwrap();
         }
     }
     let top = match sym::choose("top", 3) {
